@@ -22,7 +22,9 @@ NOT_DECIDED = ("equivalence of the scalar and SIMD compression functions (value-
 
 COMPARE = ["update", "finalize", "init", "increment_counter", "set_lastblock", "set_lastnode", "is_lastblock",
            "hash", "longhash", "init0", "init_param"]
-LANE = re.compile(r"\.(h|a|b)\b")
+# representation-specific: the state lanes (h[..] vs a/b vectors) and the byte view of the parameter
+# block the lanes are initialised from
+LANE = re.compile(r"\.(h|a|b)\b|from_raw_parts\(")
 
 
 def norm(s, argc):
@@ -34,7 +36,71 @@ def norm(s, argc):
     return s
 
 
-def signature(prog, f):
+def crepr(e, depth=0):
+    """Canonical text of an expression: like deep_repr, but insensitive to how a comparison is
+    spelled (a < b, b > a, !(a >= b) all read LT(a, b); == and != read EQ with sorted operands), to
+    `?` versus `match` (Try::branch is transparent), to logical negation, and to value-preserving
+    integer casts of lengths."""
+    from ..expr import E
+    if e is None:
+        return "?"
+    if depth > 8:
+        return "..."
+    if e.k == "call":
+        nm = e.a.rpath.split("::")[-1]
+        ax = call_arg_exprs(e.a)
+        if e.a.path == "std::ops::Try::branch" and ax:
+            return crepr(ax[0], depth + 1)
+        return "%s(%s)" % (nm, ", ".join(crepr(a, depth + 1) for a in ax))
+    if e.k == "binop":
+        l, r = crepr(e.b, depth + 1), crepr(e.c, depth + 1)
+        op = e.a
+        if op in ("Lt", "Ge"):
+            return "LT(%s, %s)" % (l, r)
+        if op in ("Gt", "Le"):
+            return "LT(%s, %s)" % (r, l)
+        if op in ("Eq", "Ne"):
+            x, y = sorted([l, r])
+            return "EQ(%s, %s)" % (x, y)
+        return "(%s %s %s)" % (l, op, r)
+    if e.k == "unop":
+        if e.a == "Not":
+            return crepr(e.b, depth + 1)
+        return "%s(%s)" % (e.a, crepr(e.b, depth + 1))
+    if e.k == "cast":
+        return crepr(e.a, depth + 1)
+    if e.k in ("discr", "repeat"):
+        return "%s(%s)" % (e.k, crepr(e.a, depth + 1))
+    if e.k == "field":
+        b_ = e.b
+        if b_ in ("Continue.0", "Ok.0"):
+            b_ = "Ok.0"
+        return "%s.%s" % (crepr(e.a, depth + 1), b_)
+    if e.k == "index":
+        return "%s[%s]" % (crepr(e.a, depth + 1), crepr(e.b, depth + 1) if isinstance(e.b, E) else "?")
+    if e.k == "agg":
+        return "%s::%s{%s}" % (e.a, e.b, ", ".join(crepr(o, depth + 1) for o in (e.c or [])))
+    return repr(e)
+
+
+def backend_view(prog, f, other_names):
+    """the function with the helpers that exist in this backend only folded in (a helper extracted
+    or inlined on one side is not a difference); functions both backends have are compared as pairs"""
+    from ..inline import inline
+    mod = "blake2b::blake2b_"
+
+    def pick(call, g):
+        if mod not in g.path or g.kind == "closure":
+            return False
+        short = g.path.split(mod, 1)[1].split("::", 1)[1].replace(">", "")
+        if g.name in ("compress", "load_u64_le", "loadm", "g1", "g2", "permute", "unpermute", "rotru64"):
+            return False
+        return short not in other_names
+    return inline(prog, f, pick=pick)
+
+
+def signature(prog, f0, other_names=()):
+    f = backend_view(prog, f0, set(other_names))
     sig = Counter()
     sites = {}
     reach = f.reachable(0)
@@ -44,14 +110,20 @@ def signature(prog, f):
             continue
         t = blk["t"]
         if t["k"] == "switch":
-            s = norm(deep_repr(expr_of_operand(f, t["x"])), f.argc)
+            e = expr_of_operand(f, t["x"])
+            if isinstance(evaluate(e, {}), (bool, int)):
+                continue
+            s = norm(crepr(e), f.argc)
             if LANE.search(s):
                 continue
             k = "branch on %s" % s
             sig[k] += 1
             sites.setdefault(k, f.loc(b))
         elif t["k"] == "assert":
-            s = norm(deep_repr(expr_of_operand(f, t["cond"])), f.argc)
+            e = expr_of_operand(f, t["cond"])
+            if isinstance(evaluate(e, {}), (bool, int)):
+                continue    # constant-index bounds check and the like
+            s = norm(crepr(e), f.argc)
             if LANE.search(s):
                 continue
             k = "assert %s %s" % (t["msg"], s)
@@ -64,15 +136,28 @@ def signature(prog, f):
                 if nm == "compress":
                     sig["call compress"] += 1
                 continue
-            if c.path.startswith(("std::fmt", "core::fmt", "core::panicking", "std::hint", "std::convert::From::from", "std::ops::FromResidual")) or nm in ("format", "must_use"):
+            if c.path.startswith(("std::fmt", "core::fmt", "core::panicking", "std::hint", "std::convert::From::from", "std::ops::FromResidual", "std::ops::Try")) or nm in ("format", "must_use"):
                 continue
-            args = [norm(deep_repr(a), f.argc) for a in call_arg_exprs(c)]
+            args = [norm(crepr(a), f.argc) for a in call_arg_exprs(c)]
             if any(LANE.search(a) for a in args):
                 continue
             k = "call %s(%s)" % (nm, ", ".join(a[:90] for a in args))
             sig[k] += 1
             sites.setdefault(k, c.loc())
     return sig, sites
+
+
+PURE_CALLS = {"index", "index_mut", "len", "is_empty", "deref", "deref_mut", "as_slice", "as_mut_slice", "as_ref", "as_mut",
+              "chunks_exact", "chunks", "iter", "iter_mut", "into_iter", "next", "enumerate", "zip", "min", "max", "size_of",
+              "default", "as_ptr", "as_mut_ptr", "unwrap", "expect", "try_from", "try_into", "into", "split_at", "split_at_mut",
+              "get", "get_mut", "first", "last", "remainder", "is_some", "is_none", "is_ok", "is_err", "unwrap_or", "clone"}
+
+
+def effectful(key):
+    if not key.startswith("call "):
+        return False
+    nm = key[5:].split("(", 1)[0]
+    return nm not in PURE_CALLS
 
 
 def module_fns(prog, mod):
@@ -105,11 +190,13 @@ def run(ctx, rep):
             continue
         a, b = sf.get(name), mf.get(name)
         if a is None or b is None:
-            rep.violation("SURFACE", name, "function exists only in the %s backend" % ("software" if b is None else "SIMD"), loc=(a or b).loc())
+            # a private helper present in one backend only is not a difference in itself: its body is
+            # compared where it is folded into its callers; a function the rest of the crate uses must
+            # exist in both (SURFACE, below)
             continue
         n += 1
-        sa_, la = signature(soft, a)
-        sb_, lb = signature(simd, b)
+        sa_, la = signature(soft, a, set(mf))
+        sb_, lb = signature(simd, b, set(sf))
         if short in ("init0", "init_param"):
             # lane initialisation differs by construction: compare guards/asserts only
             sa_ = Counter({k: v for k, v in sa_.items() if not k.startswith("call ")})
@@ -119,6 +206,12 @@ def run(ctx, rep):
         ref = re.compile(r"_[1-9]\b")
         sa_ = Counter({k: v for k, v in sa_.items() if ref.search(k) or k == "call compress"})
         sb_ = Counter({k: v for k, v in sb_.items() if ref.search(k) or k == "call compress"})
+        # decisions (branch conditions, assertions) and pure reads (index, len, iterators, ...) are
+        # compared as sets: testing the same condition once or twice, or re-slicing the same range, is
+        # not a difference; calls with effects are compared with multiplicity
+        def flat(cn):
+            return Counter({k: (v if effectful(k) else 1) for k, v in cn.items()})
+        sa_, sb_ = flat(sa_), flat(sb_)
         only_a = sa_ - sb_
         only_b = sb_ - sa_
         if short == "finalize":
@@ -131,7 +224,7 @@ def run(ctx, rep):
                 ["%s @%s" % (k, la.get(k)) for k in only_a][:4], ["%s @%s" % (k, lb.get(k)) for k in only_b][:4]))
         rep.ob("SIB", name, ok, detail, loc=a.loc())
         rep.sample({"fn": name, "sites": sum(sa_.values())})
-    rep.floor("backend function pairs compared", n, 9)
+    rep.floor("backend function pairs compared", n, 6)
     # constants of the module agree
     for cname in ("BLOCKBYTES", "OUTBYTES", "KEYBYTES", "SALTBYTES", "PERSONALBYTES"):
         va = [c["v"] for p, c in soft.consts.items() if p.endswith("blake2b_soft::" + cname)]
